@@ -47,6 +47,21 @@ def gen_cases(rng, n):
             d["constraints"] = [c for c in d["constraints"] if c["kind"] in ("keep_idx", "keep", "pattern", "gcwin")]
             d["objectives"] = [o for o in d["objectives"] if o["kind"] in ("pattern_obj", "gc_obj", "keep_obj", "change_obj")] or \
                 [dict(kind="pattern_obj", pattern=problems.rand_pattern(rng), boost=1)]
+        if not d.get("circular") and rng.random() < 0.3:
+            # the search runs on a localized view of the mutation space (as in the solver's local problems); the
+            # window may cut a multi-nucleotide choice
+            n_ = len(d["sequence"])
+            a_ = rng.randint(0, n_ - 1)
+            d["space_window"] = [a_, rng.randint(a_ + 1, n_)]
+            if rng.random() < 0.5:
+                # a codon-level space: the window boundary can fall inside a codon choice
+                d["constraints"] = [c for c in d["constraints"] if c["kind"] != "keep_idx"]
+                m_ = n_ // 3
+                if m_ >= 1:
+                    d["constraints"].append(dict(kind="cds", location=[0, 3 * m_, 1], table="Standard", start_codon=None,
+                                                 translation=None))
+                a_ = rng.randint(0, n_ - 1)
+                d["space_window"] = [a_, min(n_, a_ + rng.choice([1, 2, 3, 4, 6]))]
         if rng.random() < 0.35 and d["constraints"]:
             # focus flags left on the constraints (none / one / several): the search must still test every constraint
             k = rng.choice([1, 1, 2, 3])
@@ -54,8 +69,18 @@ def gen_cases(rng, n):
         yield dict(desc=d, op="exh_optimize" if i % 2 == 1 else "exh_resolve")
 
 
+def declared_choices(space):
+    """the distinct choices the space declares position by position (`choices_index`), independently of the
+    derived lists `choices_list` / `multichoices`"""
+    out = []
+    for c in space.choices_index:
+        if c is not None and not any(c is x for x in out):
+            out.append(c)
+    return out
+
+
 def space_members(p, start):
-    slots = [[(c.start, c.end, str(v)) for v in c.variants] for c in p.mutation_space.multichoices]
+    slots = [[(c.start, c.end, str(v)) for v in c.variants] for c in declared_choices(p.mutation_space) if len(c.variants) >= 2]
     out = []
     for combo in itertools.product(*slots):
         t = list(start)
@@ -99,7 +124,7 @@ def oracle(results, out):
         start = r["line"].split(" | ")[4].strip()
         start = "" if start == "." else start
         size = 1
-        for c in p.mutation_space.multichoices:
+        for c in declared_choices(p.mutation_space):
             size *= len(c.variants)
         if size > 4096:
             continue
